@@ -78,18 +78,31 @@ func resetEngine() {
 	freshCtr = map[string]int{}
 	typeTags = map[string]int64{}
 	bvarCtr = 0
+	opaqueBV = map[string]*Term{}
+	opaquePred = map[int]string{}
 }
 
 // verifyOne runs the generator on one function (fresh term universe) and discharges.
 func verifyOne(p *Program, key string, d *Discharger, safetyOnly bool) *FuncResult {
 	resetEngine()
-	fi, ok := p.Funcs[key]
-	if !ok {
-		return &FuncResult{Key: key, Undecided: "no such function"}
+	var ex *Exec
+	var res *FuncResult
+	if strings.HasPrefix(key, "harness:") {
+		h, ok := p.Harnesses[strings.TrimPrefix(key, "harness:")]
+		if !ok {
+			return &FuncResult{Key: key, Undecided: "no such harness"}
+		}
+		ex = newExec(p, nil)
+		res = ex.verifyHarness(h)
+	} else {
+		fi, ok := p.Funcs[key]
+		if !ok {
+			return &FuncResult{Key: key, Undecided: "no such function"}
+		}
+		ex = newExec(p, fi)
+		ex.safetyOnly = safetyOnly
+		res = ex.verifyFunc()
 	}
-	ex := newExec(p, fi)
-	ex.safetyOnly = safetyOnly
-	res := ex.verifyFunc()
 	if res.Undecided != "" {
 		return res
 	}
